@@ -37,7 +37,13 @@ def rule_tables(col, facts):
     def tab(name, fn_short, ty, callees, domain, spec, why):
         f = facts.fn(fn_short)
         try:
-            m = Model(f, ty, callees)
+            def resolver(n, _seen=[]):
+                # a helper the function delegates to (same crate): modelled the same way, fail closed otherwise
+                if not n.startswith(WF) or n in _seen or not facts.has_fn(n):
+                    return None
+                _seen.append(n)
+                return Model(facts.fn(n), ty, callees, resolver=resolver)
+            m = Model(f, ty, callees, resolver=resolver)
             bad = None
             n = 0
             for args in domain:
